@@ -221,8 +221,9 @@ def run_check(pid, tier, seed, mod):
                     ctx.build_error = err
             bad = grep_forbidden()
             ctx.oblige('no Admitted/Axiom/Parameter in coq/', not bad, '; '.join(bad[:5]))
-        # property-specific correspondences + search
-        mod.run(ctx)
+            # property-specific correspondences + search (still under the lock: the component
+            # correspondences rebuild their extracted models inside coq/ and ocaml/)
+            mod.run(ctx)
     except Exception as e:
         traceback.print_exc()
         print('FRAMEWORK ERROR in check %s: %r' % (pid, e))
